@@ -306,6 +306,8 @@ class Interp:
         self.calls_primitive = 0
         self.calls_opaque = 0
         self.prim_used: set = set()
+        self.prim_referenced: set = set()
+        self.prim_usage: dict = {}
         self.hooks: dict = {}  # primitive name -> override callable(interp, args, kwargs, site)
         self.method_hooks: dict = {}  # (class qualname, method) -> override
         self.call_stack: list = []
@@ -391,6 +393,7 @@ class Interp:
             short = name[len(BACKEND) + 1 :] or "backend"
             if name == BACKEND:
                 return ModuleV(f"{BACKEND}.{attr}")
+            self.prim_referenced.add(f"{short}.{attr}")  # called, or handed on as a value (a default solve, a callback)
             return PrimV(f"{short}.{attr}")
         if name in self.p.modules:
             m = self.p.modules[name]
@@ -913,6 +916,7 @@ class Interp:
     def call_prim(self, f: PrimV, args, kwargs, site):
         name = f.name
         self.prim_used.add(name)
+        self.prim_usage.setdefault(name, set()).add((len(args), frozenset(kwargs)))  # how the primitive is called: (positional arguments, keywords) per call shape
         hook = self.hooks.get(name)
         if hook is not None:
             r = hook(self, args, kwargs, site)
